@@ -246,6 +246,10 @@ type Scenario struct {
 	Sweepers   []int
 	Crash      []int
 	MaxCrash   int
+	// WritesAfterLeave: the owner may still write and delete keys after it has
+	// left (the server withdraws its endpoints while Leave is still telling the
+	// peers)
+	WritesAfterLeave bool
 	// Echo: nodes that may receive, from a peer, state about THEMSELVES at
 	// versions above their own (the peer remembers an earlier incarnation
 	// with the same id that never left)
